@@ -11,7 +11,7 @@ CLAIM = ("(TABLE/DOM) the header reader accepts exactly the version bytes {2,3},
          "{V2,V3}, and V1 term records are routed to the v1 term layout; (LAYOUT) the v2/v3 term decoder reads the fields where HpoTermInternal::as_bytes "
          "writes them, validates the input length against that record size, decodes no field conditionally on another field's value; the v1 term decoder's "
          "constant length validation equals the end of the fixed-offset part it reads.")
-NOT_DECIDED = "behaviour at every truncation offset inside a section (index panics are data dependent) and that each layout decodes to exactly the described ontology."
+NOT_DECIDED = "behaviour at every truncation offset inside a section (index panics are data dependent) and that each layout decodes to exactly the described ontology.  Observation outside the property's quantifier (valid files, their prefixes and extensions, the version byte): the v2/v3 term decoder never compares the declared record length with the bytes it consumes, so a CORRUPTED record that declares length 0 makes the term iterator yield the same record forever (reported by an independent differential run on 2026-09-27; not a finding under C08 as written)."
 
 DECODERS = {
     "Ontology::from_bytes": "ontology::Ontology::from_bytes",
